@@ -190,4 +190,97 @@ theorem view_diverges_iff (st : St) (op : Op) (i : Nat) (h : PInv st) (hc : 0 < 
     rw [view_remapAll st.psize st.file st.file st.slots st.fsize st.fsize i h.win rfl, droppedAt_same _ _ _ _ h.win]
     simp
 
+/-! ## reads, and the general read-after-write -/
+
+/-- a one-byte read below the size returns the view of that byte -/
+theorem read_one (st : St) (i : Nat) (hw : WInv st.slots st.fsize) (hd : st.fsize ≤ st.file.length) (hi : i < st.fsize)
+    (hb : (i : Int) + 1 ≤ offTMax) : read st i 1 = (.ok, [view st.psize st.file st.slots i]) := by
+  rw [read_eq_lay st i 1 hw hd]
+  unfold layRead
+  rw [if_neg (by omega)]
+  simp only [Int.toNat_natCast]
+  rw [show min 1 (st.fsize - i) = 1 by omega]
+  simp
+
+theorem layWrite_ok_aux (st : St) (off : Int) (d : Bytes) (h : PInv st) :
+    ∀ res : Rc × Nat × St, layWrite st off d = res → res.1 = .ok →
+      0 ≤ off ∧ off + d.length ≤ offTMax ∧ off.toNat + d.length ≤ res.2.2.fsize := by
+  intro res hres hok
+  unfold layWrite at hres
+  split at hres
+  · subst hres; cases hok
+  · rename_i hb
+    split at hres
+    · subst hres; cases hok
+    · simp only [] at hres
+      generalize hr : (if off.toNat + d.length > st.fsize then ensureSize st (off.toNat + d.length) else (Rc.ok, st)) = r at hres
+      have hri : r.1 = .ok → off.toNat + d.length ≤ r.2.fsize := by
+        rw [← hr]; split
+        · exact ensureSize_ok_ge _ _ h.size.1
+        · exact fun _ => by show off.toNat + d.length ≤ st.fsize; omega
+      obtain ⟨rc, st1⟩ := r
+      simp only [] at hres hri
+      by_cases hrc : rc = .ok
+      · subst hrc
+        simp only [ne_eq, not_true_eq_false, if_false] at hres
+        subst hres
+        exact ⟨by omega, by omega, hri rfl⟩
+      · rw [if_pos hrc] at hres
+        subst hres
+        exact absurd hok hrc
+
+/-- **read after write, private windows included**: whatever the window layout (any number of private and shared windows,
+    any sub-range, with or without growth), a successful write is read back exactly -/
+theorem read_after_write_priv (st : St) (off : Int) (d : Bytes) (h : PInv st) (hok : (write st off d).1 = .ok) :
+    read (write st off d).2.2 off d.length = (.ok, d) := by
+  have hP : PInv (write st off d).2.2 := by
+    have := exec_PInv st (.write off d) h
+    simpa only [exec] using this
+  have hf := layWrite_ok_aux st off d h _ (write_eq_lay st off d h).symm hok
+  rw [read_eq_lay _ _ _ hP.win hP.disk]
+  unfold layRead
+  rw [if_neg (by omega)]
+  rw [show min d.length ((write st off d).2.2.fsize - off.toNat) = d.length by omega]
+  congr 1
+  conv => rhs; rw [← map_range_getD d]
+  apply List.map_congr_left
+  intro k hk
+  have hk' : k < d.length := by simpa using hk
+  rw [view_write st off d _ h (by omega), if_pos ⟨hok, by omega, by omega⟩]
+  congr 1; omega
+
+/-- with shared windows only there is no overlay: the view is the file and nothing ever diverges -/
+theorem view_shared (ps : Nat) (file : Bytes) (slots : List Slot) (i : Nat) (hs : AllShared slots) :
+    view ps file slots i = file.getD i 0 := by
+  apply view_of_none
+  intro t ht
+  simp [inOvl, hs t ht]
+
+theorem shared_not_diverges (st : St) (op : Op) (i : Nat) (hs : AllShared st.slots) : ¬ diverges st op i := by
+  have hno : ∀ t ∈ st.slots, inOvl st.psize t i = false := by
+    intro t ht; simp [inOvl, hs t ht]
+  have hdrop : ∀ fs, droppedAt st.psize st.slots fs i = false := by
+    intro fs
+    simp only [droppedAt, List.any_eq_false]
+    intro t ht; simp [hno t ht]
+  have hany : inAnyOvl st.psize st.slots i = false := by
+    simp only [inAnyOvl, List.any_eq_false]
+    intro t ht; simp [hno t ht]
+  cases op with
+  | write off d => simp [diverges, hdrop]
+  | read off n => simp [diverges]
+  | copy off siz noff =>
+    simp only [diverges, hany, Bool.false_eq_true, if_false, view_shared _ _ _ _ hs]
+    intro hx; exact hx.2.2.2.2 rfl
+  | truncate size => simp [diverges, hdrop]
+  | ensure size => simp [diverges, hdrop]
+  | addMmap off maxlen priv => simp [diverges]
+  | removeMmap off =>
+    simp only [diverges, inOvlOf]
+    cases hf : st.slots.find? (fun s => s.off == off) with
+    | none => simp
+    | some s => simp [hno s (List.mem_of_find?_eq_some hf)]
+  | mmapWrite so rel d => simp [diverges]
+  | remapAll => simp [diverges]
+
 end IwModel.Exf
